@@ -148,6 +148,8 @@ func parseCounter(s string) map[string]*pb.VerifiedIndexSlice {
 	return m
 }
 
+var verifBinKey = []byte{0xff, 0xfe, 'h'}
+
 // buildBlock executes the state part of block h (one storage write) and returns the block data
 func (e *storeEngine) buildBlock(txNames []string, counter string) *ledger.BlockData {
 	meta := e.ldg.GetChainMeta()
@@ -155,6 +157,8 @@ func (e *storeEngine) buildBlock(txNames []string, counter string) *ledger.Block
 	e.ldg.PrepareBlock(nil, h)
 	e.ldg.SetState(lAddr("a0"), []byte("height"), []byte(fmt.Sprint(h)), nil)
 	e.ldg.SetState(lAddr("a0"), []byte(fmt.Sprintf("k%d", h)), []byte(strings.Join(txNames, ",")), nil)
+	// a storage key that is neither text nor a 32-byte slot (raw bytes, as a wasm contract or a packed counter would use)
+	e.ldg.SetState(lAddr("a0"), verifBinKey, []byte(fmt.Sprint(h)), nil)
 	if h == 1 || h%3 == 0 {
 		// most blocks change only the storage of an account that has a balance; block 1 and every third block change the balance too
 		e.ldg.SetBalance(lAddr("a0"), big.NewInt(int64(1000+h)))
@@ -405,6 +409,11 @@ func (e *storeEngine) crashw(o map[string]string) string {
 		sk = string(v)
 	}
 	sk += "/" + e.ldg.GetBalance(lAddr("a0")).String()
+	if ok, v := e.ldg.GetState(lAddr("a0"), verifBinKey); ok {
+		sk += "/" + string(v)
+	} else {
+		sk += "/-"
+	}
 	return fmt.Sprintf("h=%d opened chain=%d state=%d blockfile=%d head=%s statekey=%s root=%s", h, m.Height, e.ldg.Version(), blocks, head, sk, e.rootState())
 }
 
@@ -515,5 +524,10 @@ func (e *storeEngine) crash(o map[string]string) string {
 		sk = string(v)
 	}
 	sk += "/" + e.ldg.GetBalance(lAddr("a0")).String()
+	if ok, v := e.ldg.GetState(lAddr("a0"), verifBinKey); ok {
+		sk += "/" + string(v)
+	} else {
+		sk += "/-"
+	}
 	return fmt.Sprintf("h=%d opened chain=%d state=%d blockfile=%d head=%s statekey=%s root=%s", h, m.Height, e.ldg.Version(), blocks, head, sk, e.rootState())
 }
